@@ -151,6 +151,9 @@ func (c *Ctx) Assume(s ...string) { c.mu.Lock(); c.assume = append(c.assume, s..
 func (c *Ctx) Nontrivial(key string) { c.nontriv.add(Hash(key)) }
 func (c *Ctx) NontrivialH(h uint64)  { c.nontriv.add(h) }
 
+// NontrivialNew is NontrivialH reporting whether the case was new.
+func (c *Ctx) NontrivialNew(h uint64) bool { return c.nontriv.add(h) }
+
 // Sample keeps the first few samples offered under distinct tags (cheap to call often).
 func (c *Ctx) Sample(s interface{}) {
 	c.mu.Lock()
